@@ -303,6 +303,9 @@ func (x *Exec) intBinSym(op token.Token, w uint16, signed bool, a, b *Term) Valu
 		} else if b.c == 0 {
 			x.tpanic("integer divide by zero")
 		}
+		if r := x.divByConst(op == token.QUO, signed, a, b); r != nil {
+			return fromTerm(r) // common factor of dividend and divisor cancelled (affine.go)
+		}
 		if op == token.QUO {
 			if signed {
 				return fromTerm(st.Bin(OpBvSDiv, a, b))
@@ -327,21 +330,33 @@ func (x *Exec) intBinSym(op token.Token, w uint16, signed bool, a, b *Term) Valu
 		return fromTerm(st.Not(st.Eq(a, b)))
 	case token.LSS:
 		if signed {
+			if r := x.cmpAffineConst(OpSlt, a, b); r != nil {
+				return fromTerm(r) // threshold on the variable of a linear term (affine.go)
+			}
 			return fromTerm(st.Cmp(OpSlt, a, b))
 		}
 		return fromTerm(st.Cmp(OpUlt, a, b))
 	case token.LEQ:
 		if signed {
+			if r := x.cmpAffineConst(OpSle, a, b); r != nil {
+				return fromTerm(r)
+			}
 			return fromTerm(st.Cmp(OpSle, a, b))
 		}
 		return fromTerm(st.Cmp(OpUle, a, b))
 	case token.GTR:
 		if signed {
+			if r := x.cmpAffineConst(OpSlt, b, a); r != nil {
+				return fromTerm(r)
+			}
 			return fromTerm(st.Cmp(OpSlt, b, a))
 		}
 		return fromTerm(st.Cmp(OpUlt, b, a))
 	case token.GEQ:
 		if signed {
+			if r := x.cmpAffineConst(OpSle, b, a); r != nil {
+				return fromTerm(r)
+			}
 			return fromTerm(st.Cmp(OpSle, b, a))
 		}
 		return fromTerm(st.Cmp(OpUle, b, a))
